@@ -21,7 +21,7 @@ LEVEL = "exploration"
 RULE = ("event sequences over {op in {get,set,setget,get_many,set_many} on a key owned by server i, advance by 1/11/101 virtual s, "
         "server i starts failing (refused, reset) / recovers}: all sequences of length 5 (thorough 6) for 2 servers x retry_attempts "
         "{0,1,2} x ignore_exc x pooling (retry_timeout 10, dead_timeout 100); seeded random sequences of length 20..80 over the full "
-        "alphabet (also delete/incr/touch/delete_many, advances 1/10/11/50/100/101/201, connect timeouts, 3 servers, server 0 as a UNIX socket); a sample of "
+        "alphabet (also delete/incr/touch/delete_many, advances 1/10/11/50/100/101/201, connect timeouts, 3 servers, server 0 as a UNIX socket, a user-supplied hasher offering only the documented three methods); a sample of "
         "leaves is extended by the recovery epilogue. Non-trivial = >=1 failed contact and a later key-addressed op on that "
         "server's key; distinct by the abstract-state path (rotation, failed/dead bookkeeping ages, health).")
 ASSUMPTIONS = [
@@ -60,8 +60,30 @@ def owned_keys(nodes, per=2):
     return _KEYS_CACHE[t]
 
 
+class ContractOnlyHasher:
+    """a user-supplied hasher offering exactly the documented contract (add_node, remove_node, get_node) and nothing else;
+    placement is the default one, so ownership tables stay valid.  The harness reads the rotation through a name the library
+    cannot know."""
+
+    def __init__(self):
+        from pymemcache.client.rendezvous import RendezvousHash
+        self.__dict__["_h"] = RendezvousHash()
+
+    def add_node(self, node):
+        self._h.add_node(node)
+
+    def remove_node(self, node):
+        self._h.remove_node(node)
+
+    def get_node(self, key):
+        return self._h.get_node(key)
+
+    def harness_rotation(self):
+        return list(self._h.nodes)
+
+
 class Sim:
-    def __init__(self, nserv, retry_attempts, ignore_exc, pooling, unix=False):
+    def __init__(self, nserv, retry_attempts, ignore_exc, pooling, unix=False, own_hasher=False):
         import pymemcache.client.hash as hashmod
         self.hashmod = hashmod
         self.clock = VClock(1_000_000.9)          # a clock with a fractional part (truncating it must not shorten a window)
@@ -99,9 +121,10 @@ class Sim:
         self._saved_pool = poolmod.time
         poolmod.time = _T
         self.ra, self.ign, self.pooling = retry_attempts, ignore_exc, pooling
+        extra = {"hasher": ContractOnlyHasher} if own_hasher else {}
         self.hc = hashmod.HashClient(specs, socket_module=self.net, retry_attempts=retry_attempts, retry_timeout=RT,
                                      dead_timeout=DT, ignore_exc=ignore_exc, use_pooling=pooling, default_noreply=False,
-                                     timeout=1.0, connect_timeout=1.0)
+                                     timeout=1.0, connect_timeout=1.0, **extra)
         self.keys = owned_keys(self.names)
         self.owner = {k: n for n, ks in self.keys.items() for k in ks}
         # monitor state
@@ -116,6 +139,10 @@ class Sim:
         self.callno = 0
         self.vcount = 0
         self.states = []
+
+    def rotation(self):
+        h = self.hc.hasher
+        return h.harness_rotation() if isinstance(h, ContractOnlyHasher) else h.nodes
 
     def close(self):
         self.hashmod.time = self._saved
@@ -132,7 +159,7 @@ class Sim:
             l = min(int(now - hc._last_dead_check_time), DT + 1)
         except Exception:
             f = d = l = None
-        return (tuple(sorted(hc.hasher.nodes)), f, d, l, tuple(s.health for s in self.servers.values()))
+        return (tuple(sorted(self.rotation())), f, d, l, tuple(s.health for s in self.servers.values()))
 
     def v(self, key, msg):
         self.viol.append((key, msg))
@@ -204,14 +231,14 @@ class Sim:
             elif name == "getmany_vs_get":
                 # the multi-key read and the per-key reads agree while nothing changes in between
                 c2 = len(net.contacts)
-                rot0 = sorted(hc.hasher.nodes)
+                rot0 = sorted(self.rotation())
                 step()
                 many = hc.get_many(allkeys)
                 singles = {}
                 for k in allkeys:
                     step()
                     singles[k] = hc.get(k)
-                quiet = all(ok for (_, _, ok, _) in net.contacts[c2:]) and sorted(hc.hasher.nodes) == rot0
+                quiet = all(ok for (_, _, ok, _) in net.contacts[c2:]) and sorted(self.rotation()) == rot0
                 ret = ("getmany", len(many))
                 if quiet and all(s_.health == "up" for s_ in self.servers.values()):
                     want = {k: v_ for k, v_ in singles.items() if v_ is not None}
@@ -228,11 +255,11 @@ class Sim:
                 vals = {k: uniq + b"-%d" % j for j, k in enumerate(ks)}
                 m2 = {n: len(s.cmdlog) for n, s in self.servers.items()}
                 c2 = len(net.contacts)
-                rot0 = sorted(hc.hasher.nodes)
+                rot0 = sorted(self.rotation())
                 step()
                 failed = hc.set_many(vals)
                 failed_set = set(failed)
-                rot1 = set(hc.hasher.nodes)
+                rot1 = set(self.rotation())
                 # where did each key's set go?  What was written to a server that this very call took out of rotation is not
                 # promised to later reads (same rule as for set-then-get); everything else is.
                 setdest = {}
@@ -241,6 +268,13 @@ class Sim:
                         if c_.verb == b"set":
                             for k_ in c_.keys:
                                 setdest.setdefault(k_.decode(), set()).add(n_)
+                for k in ks:
+                    bare_ = k[1] if isinstance(k, tuple) else k
+                    if bare_ not in failed_set and k not in failed_set and not setdest.get(bare_):
+                        self.v("set_many-reports-stored-but-sent-nothing:%s" % name,
+                               "set_many did not list %r as failed (failed list %r) although no set command for it reached any server"
+                               % (k, sorted(map(repr, failed))[:6]))
+                        break
                 ks = [k for k in ks if all(n_ in rot1 and self.servers[n_].health == "up"
                                            for n_ in setdest.get(k[1] if isinstance(k, tuple) else k, {"<none>"}))]
                 set_contacted_failing = any(not ok for (_, _, ok, _) in net.contacts[c2:])
@@ -358,7 +392,7 @@ class Sim:
                 self.stats["revivals"] += 1
 
         # ---- exceptions
-        rotation = list(hc.hasher.nodes)
+        rotation = list(self.rotation())
         if exc is not None:
             from pymemcache.exceptions import MemcacheError
             injected = net.raised[r0:]
@@ -380,7 +414,7 @@ class Sim:
             bare = "pbare-%d" % (call % 7)
             dest = reached.get(bare, set())
             verbs = sorted(c.verb for n in dest for c in self.servers[n].cmdlog[marks[n]:] if bare.encode() in c.keys)
-            rot_now = set(hc.hasher.nodes)
+            rot_now = set(self.rotation())
             setsrv = [n for n in self.servers for c in self.servers[n].cmdlog[marks[n]:] if c.verb == b"set" and bare.encode() in c.keys]
             # the set went to a healthy server that is still in rotation: the get of the same pair must find it there
             if len(setsrv) == 1 and setsrv[0] in rot_now and self.servers[setsrv[0]].health == "up" and not contacted_failing \
@@ -501,7 +535,7 @@ def shard(tier, seed, idx, n):
         for nserv in (2, 3):
             for ra in (0, 1, 2):
                 for ign in (False, True):
-                    for pool, unix in ((False, False), (True, False), (False, True)):
+                    for pool, unix, own in ((False, False, False), (True, False, False), (False, True, False), (False, False, True)):
                         for bad in range(nserv):
                             for kind in ("refused", "reset"):
                                 for opn in ("setmanyget_pairs", "setmanyget", "set_many", "setget_pair", "getmany_vs_get", "get"):
@@ -513,14 +547,14 @@ def shard(tier, seed, idx, n):
                                     for step in range(6):
                                         seq += [("op", opn, bad), ("adv", gap)]
                                     seq += [("ok", bad), ("adv", 101), ("op", opn, bad), ("adv", 101), ("op", opn, bad)]
-                                    path = run_sequence(res, (nserv, ra, ign, pool, unix), seq, epilogue=False, label="targeted")
+                                    path = run_sequence(res, (nserv, ra, ign, pool, unix, own), seq, epilogue=False, label="targeted")
                                     states.update(path)
                                     res.count("targeted_sequences")
     rng = random.Random(seed * 15485863 + idx)
     count = 60 if tier == "quick" else 1500
     for i in range(count):
         nserv = rng.choice([2, 3])
-        cfg = (nserv, rng.choice([0, 1, 2]), rng.random() < 0.5, rng.random() < 0.3, rng.random() < 0.25)
+        cfg = (nserv, rng.choice([0, 1, 2]), rng.random() < 0.5, rng.random() < 0.3, rng.random() < 0.25, rng.random() < 0.25)
         path = run_sequence(res, cfg, random_sequence(rng, nserv), epilogue=True, label="rand")
         states.update(path)
         res.count("random_sequences")
